@@ -15,7 +15,6 @@ use crate::base::scan::{
 };
 use crate::base::wire::{Compose, Parse, ParseError};
 use crate::utils::base64;
-use core::fmt::Write as _;
 use core::str::FromStr;
 use core::{fmt, hash, mem, str};
 use octseq::builder::{
@@ -784,8 +783,15 @@ impl<Octs: Octets + ?Sized> fmt::Display for Alpn<Octs> {
             } else {
                 f.write_str(",")?;
             }
-            for ch in v.as_ref() {
-                f.write_char(*ch as char)?;
+            for &ch in v.as_ref() {
+                match ch {
+                    // A comma or backslash inside an alpn-id is escaped
+                    // in the value list (RFC 9460, appendix A.1) and the
+                    // escaping backslash once more as a character string.
+                    b',' => f.write_str("\\\\,")?,
+                    b'\\' => f.write_str("\\\\\\\\")?,
+                    _ => Symbol::from_octet(ch).fmt(f)?,
+                }
             }
         }
         Ok(())
